@@ -148,6 +148,94 @@ def transformation_steps(ctx, fn, _depth=0):
     return steps
 
 
+def rule_char_compositions(ctx):
+    from cfg import decision_paths
+    facts = ctx.facts
+
+    def cfg_atom(e):
+        e = peel(e)
+        while e[0] in ("ref", "deref"):
+            e = peel(e[1])
+        if e[0] == "field" and e[2] in ("normalize", "ignore_case") and "config::Config" in str(e[3] or ""):
+            return e[2]
+        return None
+
+    def canon_t(e, fn, cfgv, depth=0):
+        e = strip_casts(e)
+        while e[0] in ("ref", "deref"):
+            e = strip_casts(e[1])
+        if e[0] == "arg" and e[1] == 1:
+            return "c"
+        if e[0] == "call":
+            name = str(e[1])
+            if name == "chars::normalize::normalize":
+                return ("N", canon_t(e[2][0], fn, cfgv, depth + 1))
+            if name == "chars::to_lower_case":
+                return ("F", canon_t(e[2][0], fn, cfgv, depth + 1))
+            if name.endswith("::map_or") and e[2][0][0] == "call" and str(e[2][0][1]).endswith("binary_search_by_key"):
+                bs = e[2][0]
+                tb = peel(bs[2][0])
+                while tb[0] in ("ref", "deref"):
+                    tb = peel(tb[1])
+                key = canon_t(bs[2][1], fn, cfgv, depth + 1)
+                dflt = canon_t(e[2][1], fn, cfgv, depth + 1)
+                if FOLD_TABLE in tb[1:3] and key == dflt:
+                    return ("F", key)
+            if name == "<char as chars::Char>::normalize" and depth < 2:
+                sib = get_fn(facts, M, name)
+                inner = canon_t(e[2][0], fn, cfgv, depth + 1)
+                forms = forms_of(sib, False).get(cfgv)
+                if forms and len(forms) == 1 and inner == "c":
+                    return list(forms)[0]
+        return ("?", show(e)[:50])
+
+    def forms_of(fn, pair):
+        out = {}
+        for conds, res in decision_paths(fn):
+            if res is None:
+                continue
+            cfgs = {"normalize": None, "ignore_case": None}
+            ascii_path = False
+            for d, chosen, allv in conds:
+                a = cfg_atom(d)
+                truth = (chosen != 0) if chosen is not None else True
+                if a:
+                    cfgs[a] = truth
+                d0 = strip_casts(d)
+                if d0[0] == "call" and str(d0[1]).endswith("is_ascii") and truth:
+                    ascii_path = True
+            if ascii_path:
+                continue
+            val = res
+            if pair:
+                r = strip_casts(res)
+                if r[0] != "tuple" or len(r[1]) != 2:
+                    out.setdefault(None, set()).add(("?", "not a pair"))
+                    continue
+                val = r[1][0]
+            for nz in (False, True):
+                for ic in (False, True):
+                    if cfgs["normalize"] in (None, nz) and cfgs["ignore_case"] in (None, ic):
+                        out.setdefault((nz, ic), set()).add(canon_t(val, fn, (nz, ic)))
+        return out
+    a = get_fn(facts, M, "<char as chars::Char>::normalize")
+    b = get_fn(facts, M, "<char as chars::Char>::char_class_and_normalize")
+    fa, fb = forms_of(a, False), forms_of(b, True)
+    want = {(False, False): "c", (False, True): ("F", "c"), (True, False): ("N", "c"), (True, True): ("F", ("N", "c"))}
+    feats = facts.const(M, FOLD_TABLE) is not None
+    for cfgv, w in want.items():
+        for fn, forms, nm in ((a, fa, "normalize"), (b, fb, "char_class_and_normalize")):
+            got = forms.get(cfgv, set())
+            txt = "normalize=%s, ignore_case=%s" % cfgv
+            if got == {w}:
+                ctx.ok(site(fn, 0), "char::%s (%s) = %s on every path" % (nm, txt, w))
+            else:
+                ctx.violation("<char as chars::Char>|composition|%s|%d%d" % (nm, cfgv[0], cfgv[1]), site(fn, 0),
+                              "char::%s with %s returns %s depending on the path; both routines must return %s for every non-ASCII character "
+                              "(a short cut that skips or replaces the case-folding table for some characters makes the scoring side and the filtering side see different characters, e.g. Ǣ → Æ vs æ)"
+                              % (nm, txt, sorted(map(str, got)), w))
+
+
 def rule_norm_siblings(ctx):
     facts = ctx.facts
     features_fold = facts.const(M, FOLD_TABLE) is not None
@@ -197,7 +285,9 @@ def rule_norm_siblings(ctx):
     if not sa or not sb:
         ctx.note("no transformation steps found in the char impl (features off?)")
         ctx.ok("<char as chars::Char>", "no normalization/folding steps compiled in this configuration")
-    # the first component returned by c_c_a_n is the transformed self (same variable the steps assign)
+    # path-sensitive: for every configuration, on every decision path for a non-ASCII character, both routines
+    # return the same composition of the two table functions: c / fold(c) / norm(c) / fold(norm(c))
+    rule_char_compositions(ctx)
     # ---- AsciiChar
     rule_ascii_fold_consts(ctx)
 
